@@ -51,6 +51,7 @@ type Gen struct {
 	SharedStyleIDs    bool // custom style ids come from a small pool shared by all documents of a run (same id, different definitions)
 	NoCellList        bool // no lists inside table cells (they use the process-wide numbering registry)
 	ObsEvery          int  // > 0: about one accessor sweep ("obs") every ObsEvery ops
+	ObsExport         bool // accessor sweeps also export the document to Markdown (through the world's one Exporter)
 	ObsCounts         bool // accessor sweeps read the note counts (which come from the process-wide registry)
 	styles            []string
 	ntables           int
@@ -137,7 +138,11 @@ func (g *Gen) DocOps(d, n int) []sim.Op {
 			op.D = d
 			ops = append(ops, op)
 			if g.ObsEvery > 0 && g.R.Intn(g.ObsEvery) == 0 {
-				ops = append(ops, sim.Op{K: "obs", D: d, I: []int{btoi(g.ObsCounts)}})
+				ob := sim.Op{K: "obs", D: d, I: []int{btoi(g.ObsCounts), 0}}
+				if g.ObsExport {
+					ob.I[1] = []int{0, 1, 1, 2 + g.R.Intn(16)}[g.R.Intn(4)]
+				}
+				ops = append(ops, ob)
 			}
 		}
 	}
